@@ -81,9 +81,13 @@ def install(eng):
     reg(min, functools.partial(b_minmax, True))
     reg(max, functools.partial(b_minmax, False))
     reg(abs, splitargs(b_abs))
+    import dataclasses as _dcs
+    reg(_dcs.fields, b_dc_fields)
     reg(round, splitargs(b_round))
     reg(functools.partial, b_partial)
     reg(getattr, b_getattr)
+    reg(setattr, b_setattr)
+    reg(object.__setattr__, b_setattr)      # the frozen-dataclass escape hatch: a plain attribute store
     reg(hasattr, b_hasattr)
     reg(range, b_range)
     reg(enumerate, b_enumerate)
@@ -369,6 +373,12 @@ def b_tuple(eng, st, args, kwargs):
 
 
 def b_list(eng, st, args, kwargs):
+    if args and isinstance(args[0], VSeq):
+        # list(<symbolic sequence>): a new list object with the same elements in the same order
+        return ok(st, VRef(st.alloc(HObj("slist", None, {"e": args[0].e, "elem": args[0].elem}))))
+    if args and isinstance(args[0], VRef) and st.heap[args[0].oid].kind == "slist":
+        o = st.heap[args[0].oid]
+        return ok(st, VRef(st.alloc(HObj("slist", None, {"e": o.f["e"], "elem": o.f["elem"]}))))
     items = eng.iter_concrete(args[0], st) if args else []
     return ok(st, VRef(st.alloc(HObj("list", None, {"items": items}))))
 
@@ -486,6 +496,17 @@ def b_getattr(eng, st, args, kwargs):
                 for c in e.feas:
                     s3.assume(typeof_f(e.v.e) != cls_code(c))
                 out.append((s3, args[2] if len(args) > 2 else eng.raise_py(s3, AttributeError, name.as_string())))
+    return out
+
+
+def b_setattr(eng, st, args, kwargs):
+    name = simp(args[1].e) if isinstance(args[1], VStr) else None
+    if name is None or not z3.is_string_value(name):
+        raise Unsupported("setattr with a symbolic name")
+    out = []
+    for s, base in eng.split_union(args[0], st):
+        for s2, r in setattr_(eng, s, base, name.as_string(), args[2]):
+            out.append((s2, r if isinstance(r, Raised) else VNone))
     return out
 
 
@@ -869,6 +890,49 @@ def bmeth(name, recv, impl):
     return VFunc("bmeth", name=name, recv=recv, impl=impl)
 
 
+def lift_or_live(eng, st, obj):
+    try:
+        return eng.lift(obj, st)
+    except Unsupported:
+        return VLive(obj)
+
+
+def concretize(v):
+    """Python value of a constant engine value (for calls on live library objects), or raise Unsupported."""
+    if isinstance(v, VLive):
+        return v.obj
+    if isinstance(v, VNoneT):
+        return None
+    if isinstance(v, VClass):
+        return v.py
+    if isinstance(v, (VStr, VInt, VBool)):
+        e = z3.simplify(v.e)
+        if z3.is_string_value(e):
+            return e.as_string()
+        if z3.is_int_value(e):
+            return e.as_long()
+        if z3.is_true(e) or z3.is_false(e):
+            return z3.is_true(e)
+    raise Unsupported(f"call on a live library object with a non-constant argument {v}")
+
+
+def call_live(eng, st, fv, args, kwargs):
+    eng.assumptions_used.add("A-LIB(dataclasses): fields(), Field.metadata are read from the live classes")
+    r = fv.obj(*[concretize(a) for a in args], **{k: concretize(a) for k, a in kwargs.items()})
+    return ok(st, lift_or_live(eng, st, r))
+
+
+def b_dc_fields(eng, st, args, kwargs):
+    import dataclasses
+    c = args[0]
+    if isinstance(c, VRef):
+        c = VClass(st.heap[c.oid].cls)
+    if not isinstance(c, VClass) or not dataclasses.is_dataclass(c.py):
+        raise Unsupported(f"dataclasses.fields of {c}")
+    eng.assumptions_used.add("A-LIB(dataclasses): fields(), Field.metadata are read from the live classes")
+    return ok(st, VTuple([VLive(f) for f in dataclasses.fields(c.py)]))
+
+
 def getattr_(eng, st, v, name):
     if isinstance(v, VNoneT):
         # AttributeError on None is a real behaviour we must see (C09: no raw AttributeError escapes)
@@ -881,6 +945,8 @@ def getattr_(eng, st, v, name):
         return g.f[name]
     if isinstance(v, VModule):
         return eng.lift(getattr(v.py, name), st)
+    if isinstance(v, VLive):
+        return lift_or_live(eng, st, getattr(v.obj, name))
     if isinstance(v, VBytes):
         return bmeth(name, v, BYTES_METHODS[name]) if name in BYTES_METHODS else _unsup(f"bytes.{name}")
     if isinstance(v, VStr):
